@@ -243,6 +243,8 @@ OPS = [
   ("species_key_without_dot", "eam fs adp", op_key("Species", lambda k, v: True, lambda k, rng: k.replace(".", "_"))),
   ("species_value_nonnumeric", "eam fs adp", op_value("Species", lambda k, v: k.endswith("atomic_mass") or k.endswith("lattice_constant"), lambda v, rng: rng.choice(["heavy", "1,5", "12 amu"]))),
   ("species_value_nonfinite", "eam fs adp", op_value("Species", lambda k, v: k.endswith("atomic_mass") or k.endswith("lattice_constant"), lambda v, rng: rng.choice(["nan", "inf", "-inf", "NaN", "Infinity"]))),
+  ("species_lattice_type_not_one_word", "eam fs adp", lambda it, info, rng: (bm.sec(it, "Species")[1].append(["%s.lattice_type" % info["species"][0], rng.choice(
+      ["bcc\n    %s.lattice_constant : 4.05" % info["species"][0], "fcc lattice", "bcc\n  9 9 9 fcc", "h c p"])]), it)[1]),
   ("species_atomic_number_not_integer", "eam fs adp", lambda it, info, rng: (bm.sec(it, "Species")[1].append(["%s.atomic_number" % info["species"][0], rng.choice(["13.5", "thirteen"])]), it)[1]),
   ("unknown_species_without_mass", "eam adp", lambda it, info, rng: (bm.sec(it, "EAM-Embed")[1].append(["Xq", "as.constant 1.0"]), bm.sec(it, "EAM-Density")[1].append(["Xq", "as.constant 1.0"]), it)[2]),
   # ---- missing sections
